@@ -29,7 +29,10 @@ def dry_run(sim, request: List[Any]) -> Tuple[List[Dict[str, bool]], bool]:
             obs.append({"present": False, "guard": False})
             return obs, False
         rt = rm.request_types[key]
-        ok = bool(rt.validator(opts, {}))
+        try:
+            ok = bool(rt.validator(opts, {}))
+        except Exception:  # noqa - the permission rule itself raised: the real resolution raises there too
+            ok = False
         obs.append({"present": True, "guard": ok})
         if not ok:
             return obs, False
